@@ -157,7 +157,7 @@ let oop_of s =
   | 'Y' -> OCtorMoveOptU t
   | 'E' -> OEmplaceC (zi s.p)
   | 'R' -> OResetC
-  | 'i' | 'j' -> OCtorValue (t, zi s.p)
+  | 'i' | 'j' | 'p' | 'P' | 'q' -> OCtorValue (t, zi s.p)   (* p, P, q: make_optional(value) / make_optional<T>(args) / make_optional(lvalue) *)
   | 'J' -> OCtorValueU (t, zi s.p)
   | 'd' | 'D' -> OCtorEmpty t
   | _ -> raise Not_found
@@ -405,6 +405,7 @@ let rop_of (cst, fromz) s =
   | 'f' -> RSelf t
   | 'W' -> RCellSet (ni (s.p mod 3), zi s.q)
   | ('o' | 'i' | 'O') when cst -> RFromOpt t
+  | ('O' | 'Q') when not cst -> RFromOpt t   (* optional(optional<U>&); x = src is x = O(src) there *)
   | ('x' | 'X') when fromz -> RFromRef t
   | ('q' | 'Q') when cst -> RAssignOpt t
   | ('y' | 'Y') when fromz -> RAssignRef t
